@@ -1,6 +1,6 @@
 \* spec -> code: every case printed with its expected arrays
-CONSTANTS NG = 2  NGam = 2  Variants = {1, 2}
-CONSTANT DensSeq <- DensQuick
+CONSTANTS NG = 3  NGam = 2  Variants = {1, 2, 3}
+CONSTANT DensSeq <- DensThorough
 CONSTANT PairSet <- PairQuick
 INIT Init
 NEXT Next
